@@ -17,32 +17,20 @@ Proof.
   destruct H as [H|H]; [subst r; repeat split|exact (IH _ _ H)].
 Qed.
 
-Lemma run_inv g : forall ops st, clean st -> guard g ops = true ->
-  forall r, In r (run g st ops) -> clean (r_pre r) /\ op_guard g (r_op r) = true.
-Proof.
-  induction ops as [|o rest IH]; intros st Hc Hg r H; simpl in H; [contradiction|].
-  simpl in Hg. apply andb_true_iff in Hg. destruct Hg as [Hg1 Hg2].
-  destruct H as [H|H].
-  - subst r. simpl. split; assumption.
-  - apply (IH (fst (fst (step g st o)))); [apply step_clean; assumption|exact Hg2|exact H].
-Qed.
-
 Lemma hist_spec g ops r :
-  guard g ops = true -> In r (run g init ops) -> succeeded (r_out r) = true ->
+  In r (run g init ops) -> succeeded (r_out r) = true ->
   r_tr r = spec_events g (r_pre r) (r_op r).
 Proof.
-  intros Hg Hin Hs. destruct (run_inv g ops init clean_init Hg r Hin) as [Hc Ho].
-  destruct (run_is_step g ops init r Hin) as [H1 [H2 _]].
-  rewrite H2. apply step_spec; [exact Hc|exact Ho|rewrite <- H1; exact Hs].
+  intros Hin Hs. destruct (run_is_step g ops init r Hin) as [H1 [H2 _]].
+  rewrite H2. apply step_spec. rewrite <- H1. exact Hs.
 Qed.
 
 Lemma hist_spec_concat g ops :
-  guard g ops = true ->
   concat (map r_tr (filter (fun r => succeeded (r_out r)) (run g init ops)))
   = concat (map (fun r => spec_events g (r_pre r) (r_op r)) (filter (fun r => succeeded (r_out r)) (run g init ops))).
 Proof.
-  intros Hg. f_equal. apply map_ext_in. intros r Hr. apply filter_In in Hr. destruct Hr as [Hin Hs].
-  apply (hist_spec g ops r Hg Hin Hs).
+  f_equal. apply map_ext_in. intros r Hr. apply filter_In in Hr. destruct Hr as [Hin Hs].
+  apply (hist_spec g ops r Hin Hs).
 Qed.
 
 Lemma hist_fetch g ops r :
@@ -53,12 +41,11 @@ Proof.
 Qed.
 
 Lemma hist_table g ops r :
-  guard g ops = true -> In r (run g init ops) -> succeeded (r_out r) = true ->
+  In r (run g init ops) -> succeeded (r_out r) = true ->
   k_tbl (ks (r_post r) (op_cls (r_op r))) = spec_table g (r_pre r) (r_op r)
   /\ forall k id, op_target (r_op r) = Some (k, id) -> pend_of (r_post r) k id = spec_pend g (r_pre r) (r_op r).
 Proof.
-  intros Hg Hin Hs. destruct (run_inv g ops init clean_init Hg r Hin) as [Hc Ho].
-  destruct (run_is_step g ops init r Hin) as [H1 [_ H3]]. rewrite H3. rewrite H1 in Hs. split.
+  intros Hin Hs. destruct (run_is_step g ops init r Hin) as [H1 [_ H3]]. rewrite H3. rewrite H1 in Hs. split.
   - apply step_table; assumption.
   - intros k id Ht. apply step_pend; assumption.
 Qed.
@@ -77,7 +64,7 @@ Proof.
     cbn [posts_last]. rewrite andb_true_l.
     apply posts_last_run_posts; [apply no_write_after_part|apply no_other_sig_after_part; reflexivity|apply posts_last_after_part].
   - rewrite posts_last_app_nopost by apply no_post_sig_events.
-    destruct (is_lazy k); [reflexivity|]. simpl app. cbn [posts_last]. apply posts_last_after_part.
+    destruct (is_lazy k); [reflexivity|]. destruct (is_nil _); simpl app; cbn [posts_last]; apply posts_last_after_part.
   - rewrite posts_last_app_nopost by apply no_post_sig_events.
     destruct (is_lazy k); [reflexivity|]. destruct (is_nil _); simpl app; cbn [posts_last]; apply posts_last_after_part.
   - destruct (is_nil _); [reflexivity|]. simpl app. cbn [posts_last]. apply posts_last_after_part.
@@ -105,7 +92,7 @@ Proof.
   - oa.
   - destruct (is_lazy k).
     + rewrite app_nil_r. apply ordered_around_nowrite, no_write_sig_events.
-    + oa.
+    + destruct (is_nil _); [simpl app|]; oa.
   - destruct (is_lazy k).
     + rewrite app_nil_r. apply ordered_around_nowrite, no_write_sig_events.
     + destruct (is_nil _); [simpl app|]; oa.
@@ -129,7 +116,7 @@ Lemma spec_counts g st o s i :
 Proof.
   destruct o as [k kw0|k id c v|k id kw0|k id|k id|k id fr|k]; unfold spec_events, owed, before_sig, after_sig, op_cls.
   - counts. destruct s; simpl; lia.
-  - destruct (is_lazy k); counts; destruct s; simpl; lia.
+  - destruct (is_lazy k); [|destruct (is_nil _)]; counts; destruct s; simpl; lia.
   - destruct (is_lazy k); [|destruct (is_nil _)]; counts; destruct s; simpl; lia.
   - destruct (is_nil (pend_of st k id)); counts; destruct s; simpl; lia.
   - counts. destruct s; simpl; lia.
@@ -138,20 +125,20 @@ Proof.
 Qed.
 
 Lemma hist_once g ops r s a i :
-  guard g ops = true -> In r (run g init ops) -> succeeded (r_out r) = true ->
+  In r (run g init ops) -> succeeded (r_out r) = true ->
   In (i, (s, a)) (tab g (op_cls (r_op r))) ->
   count (is_sig_to s i) (r_tr r) = if owed (r_pre r) (r_op r) s then 1%nat else 0%nat.
 Proof.
-  intros Hg Hin Hs Hl. rewrite (hist_spec g ops r Hg Hin Hs), spec_counts.
+  intros Hin Hs Hl. rewrite (hist_spec g ops r Hin Hs), spec_counts.
   destruct (owed _ _ _); [|reflexivity]. unfold tab in *. eapply count_sel_number. exact Hl.
 Qed.
 
 Lemma hist_nobody_else g ops r s i :
-  guard g ops = true -> In r (run g init ops) -> succeeded (r_out r) = true ->
+  In r (run g init ops) -> succeeded (r_out r) = true ->
   (forall a, ~ In (i, (s, a)) (tab g (op_cls (r_op r)))) ->
   count (is_sig_to s i) (r_tr r) = 0%nat.
 Proof.
-  intros Hg Hin Hs Hl. rewrite (hist_spec g ops r Hg Hin Hs), spec_counts.
+  intros Hin Hs Hl. rewrite (hist_spec g ops r Hin Hs), spec_counts.
   destruct (owed _ _ _); [|reflexivity]. unfold tab in *. apply count_sel_number_other. exact Hl.
 Qed.
 
@@ -166,25 +153,10 @@ Proof.
     reflexivity.
 Qed.
 
-Lemma assign_core_no_create g k id pend sup c v s :
+Lemma assign_core_no_create g k id pend c v s :
   sig_eqb s SUpdate = false -> sig_eqb s SUpdated = false ->
-  existsb (is_sig s) (u_tr (assign_core g k id pend sup c v)) = false.
-Proof.
-  intros H1 H2. unfold assign_core.
-  set (d := if sup then [(c, v)] else final_kw SUpdate (sel SUpdate (tab g k)) [(c, v)]).
-  set (tr1 := if sup then [] else sig_events SUpdate k (Some id) (sel SUpdate (tab g k)) [(c, v)]).
-  assert (Ht1 : existsb (is_sig s) tr1 = false).
-  { unfold tr1. destruct sup; [reflexivity|apply no_other_sig_events; exact H1]. }
-  destruct (negb (Nat.eqb (length d) 1) || negb (kw_has c d)).
-  - pose proof (set_core_no_create g k id pend true d s H1 H2) as Hr.
-    destruct (u_out (set_core g k id pend true d)); cbn [u_tr];
-      try (rewrite existsb_app, Ht1, Hr; reflexivity).
-    destruct (kw_get c d); [destruct (negb (val_ok _ _)); [|destruct (is_lazy k)]|]; cbn [u_tr];
-      repeat rewrite existsb_app; rewrite Ht1, Hr, ?(no_other_sig_after_part _ _ _ _ _ H2); reflexivity.
-  - cbn [u_out].
-    destruct (kw_get c d); [destruct (negb (val_ok _ _)); [|destruct (is_lazy k)]|]; cbn [u_tr];
-      repeat rewrite existsb_app; rewrite Ht1, ?(no_other_sig_after_part _ _ _ _ _ H2); reflexivity.
-Qed.
+  existsb (is_sig s) (u_tr (assign_core g k id pend c v)) = false.
+Proof. intros H1 H2. rewrite assign_core_is_set. apply set_core_no_create; assumption. Qed.
 
 Lemma step_no_create g st o s :
   is_create o = false -> (s = SCreate \/ s = SCreated) -> existsb (is_sig s) (snd (step g st o)) = false.
